@@ -2,7 +2,7 @@
    projections P-args, P-algo, P-layout, P-config, P-client, P-stream.  Strings travel
    hex-encoded so that arbitrary ASCII (spaces, control characters) survives the word split. *)
 From Coq Require Import String Ascii ZArith DecimalString Decimal List Bool.
-From HS Require Import Base PyVal Algo Shard RefsCodec Args Verdict Config Client StreamModel Codec.
+From HS Require Import Base PyVal Algo Shard RefsCodec Args Verdict Config Client StreamModel FS Ops Sched Lin Codec.
 Import ListNotations.
 Open Scope string_scope.
 
@@ -127,7 +127,7 @@ Definition read_props (s : string) : option (option props) :=
   else option_map Some (read_all read_prop (split_char ";" s)).
 
 (* yaml: "N" or "d,w,algohex,nshex" *)
-Definition read_cfg (s : string) : option (option cfg) :=
+Definition read_cfg (s : string) : option (option Config.cfg) :=
   if String.eqb s "N" then Some None
   else match split_char "," s with
        | [d; w; a; n] =>
@@ -267,8 +267,59 @@ Definition layerA (ws : list string) : string :=
   | _ => "BADCMD"
   end.
 
+(* replay <i,j,...> | setup | c1 || c2 [|| c3] : run ONE schedule step by step; prints
+   "<thread>:<op> -> <answer>" for every step, then the threads' outcomes and the final world.
+   Used by the controlled-scheduler correspondence (P-sched): the implementation is driven along the
+   same schedule and must produce the same per-thread operation sequences, outcomes and files. *)
+Fixpoint exec_trace {A} (ps : list (prog A)) (sched : list nat) (c : Sched.cfg) (acc : list string)
+  : list string * option Sched.cfg :=
+  match sched with
+  | [] => (rev acc, Some c)
+  | i :: s =>
+      match nth_error ps i, nth_error (fst c) i with
+      | Some p, Some h =>
+          match resume p (rev h) with
+          | Some (Vis o k) =>
+              match exec_op i o (snd c) with
+              | Some (a, w') =>
+                  exec_trace ps s (upd_nth i (a :: h) (fst c), w')
+                             ((show_nat i ++ ":" ++ show_step (o, a)) :: acc)
+              | None => (rev (("BLOCKED:" ++ show_nat i) :: acc), None)
+              end
+          | _ => (rev (("NOSTEP:" ++ show_nat i) :: acc), None)
+          end
+      | _, _ => (rev (("NOTHREAD:" ++ show_nat i) :: acc), None)
+      end
+  end.
+
+Definition cmd_replay (sched : list nat) (setup calls : list call) : string :=
+  match run_history empty_world setup with
+  | Some (w0, _) =>
+      let ps := map api calls in
+      match exec_trace ps sched (init_cfg ps w0) [] with
+      | (steps, Some c) =>
+          join " ; " steps ++ " | " ++ join " , " (map show_opt_outcome (results ps c)) ++ " | "
+          ++ show_world (snd c)
+          ++ " lin=" ++ (if lin_ok w0 calls c then "1" else "0")
+          ++ " retr=" ++ (if stored_retrievable calls c then "1" else "0")
+          ++ " stuck=" ++ (if is_nil (succs ps c) then "1" else "0")
+      | (steps, None) => join " ; " steps ++ " | DIVERGED"
+      end
+  | None => "STUCK"
+  end.
+
 Definition run_line_all (line : string) : string :=
   match words line with
   | "A" :: ws => layerA ws
+  | "replay" :: sch :: "|" :: rest =>
+      match (if String.eqb sch "-" then Some [] else read_all read_nat (split_char "," sch)),
+            split_at "|" rest [] with
+      | Some s, [sw; cw] =>
+          match read_history sw, read_calls (split_at "||" cw []) with
+          | Some setup, Some calls => cmd_replay s setup calls
+          | _, _ => "PARSE"
+          end
+      | _, _ => "PARSE"
+      end
   | _ => run_line line
   end.
